@@ -143,6 +143,15 @@ class Sess:
         boots, tm = self.new_ident()
         self.agent = rigp.Agent(self.handle, engine_id=self.engine_id, boots=boots, etime=tm,
                                 users=[cfg.user_keys()], rng=random.Random(rng.random()))
+        if knobs.get("reply_pad") and cfg.priv:
+            orig_reply = self.agent.reply
+
+            def reply(req, *a, **kw):
+                # agent-side encryption with arbitrary trailing octets after the scoped PDU
+                if "pad" not in kw and kw.get("encrypt", True) is not False and kw.get("pdu_tag") != B.PDU_REPORT:
+                    kw["pad"] = bytes(rng.randrange(256) for _ in range(rng.choice([0, 0, 1, 7, 8, 15, 16, 31])))
+                return orig_reply(req, *a, **kw)
+            self.agent.reply = reply
         self.mib, self.root = gen_mib(rng, n=knobs.get("mib_n"))
         self.allow_bulk = rng.random() < 0.7
         self.max_rep = rng.choice([1, 2, 5, 20, 50])
